@@ -311,6 +311,19 @@ def tcp_wrap(ctx):
                   a2b=dict(loss=rng.choice([0, 0.05]), dup=rng.choice([0, 0.05]), hold=rng.choice([0.15, 0.3]), coalesce=rng.choice([0, 0.1]), budget=rng.choice([4, 8, 16])),
                   b2a=dict(loss=0, dup=0, hold=rng.choice([0, 0.1]), budget=2))
         scs.append(sc)
+    # deterministic: the first segment of a flight is held back while the next 2..4 (whose starting sequence numbers straddle the
+    # wrap point) park in the receiver's out-of-order heap; when it arrives the ACK must cover everything that is contiguous
+    # (sync-wire ACK coverage clause), which needs the heap to be ordered by wrap-aware comparison
+    k = 0
+    for hi in (0xffff, 0x7fff):
+        for below in (200, 400, 500, 149, 297):           # bytes of stream before the wrap (mss is 148 at mtu 200)
+            for arg in ((2, 3, 4) if ctx.thorough() else (3,)):
+                k += 1
+                lo = 0x10000 - 1 - below
+                scs.append(dict(v=4 if k % 3 else 6, mtu=200, sack=(k % 2 == 0), cc='', sync=True, deadline_ms=45000, seed=k, flags={},
+                                tag='wrap-park%d-iss%04x%04x-hold%d' % (k, hi, lo, arg),
+                                a=dict(writes=[1480], shutdown=True, iss=[hi, lo]), b=dict(writes=[], shutdown=True),
+                                a2b=dict(rules=[dict(kind='data', nth=1, act='hold', arg=arg)]), b2a=dict()))
     segs, stats, rep = tcplib.run_pair(ctx, drv, scs, ['C01', 'C04'], 'c14tcp', what='TCP with wrap-adjacent initial sequence numbers', classify=tcplib.classify_all)
     ctx.extra['tcp_wrap'] = stats
     ctx.extra['tcp_wrap_iss_placements'] = ['%04x%04x' % tuple(p) for p in placements]
